@@ -337,6 +337,12 @@ def run_cases(rep, cases, spec_only=False, tag=ID):
         files, fs = sources(linked, table, link=kind.endswith("+link"))
         jobs.append(((files,), {"fs": fs, "want_symbols": True, "watchdog": 10}))
     outs = impl.pmap("assemble", jobs)
+    real = 0
+    for k, o in enumerate(outs):      # a watchdog expiry on a loaded machine is not yet a hang: confirm serially
+        if o["outcome"] == "hang" and real < 3:
+            outs[k] = impl.assemble(*jobs[k][0], **{**jobs[k][1], "watchdog": 40})
+            if outs[k]["outcome"] == "hang":
+                real += 1
     terms, pys = [], []
     for (kind, linked, table), o in zip(cases, outs):
         t, py = observe(o)
